@@ -105,7 +105,7 @@ def main():
         "C10": "; format_token builds no white space from a literal",
         "C11": "; quote wiring: every quoted literal's quote type is the result of get_quote_to_use on every path of format_token",
         "C14": "; cause of every exit edge of the walker loop",
-        "C15": "; per-file configuration: a job's configuration is by its only definition load_configuration(<its own path>) of the same loop iteration",
+        "C15": "; per-file configuration: a job's configuration is by its only definition load_configuration(<its own path>) of the same loop iteration; user-level probes of search_config_locations in the documented order (def-use over the MIR)",
         "C20": "; C15's search / precedence / per-file kernels decide this property as well",
         "C17": "; the stdin text reaches format_string untouched; the pass-through flag has no other source than path_is_stylua_ignored",
         "C19": "; one file per pool job (C14's sender kernel) with a thread-count sweep replay",
